@@ -112,6 +112,8 @@ pub struct Ctx {
     pub stats: Stats,
     pub violations: Vec<Violation>,
     pub max_violations: usize,
+    /// 64-bit hashes of the (kind, options, capacity, bytes) of every non-trivial vector seen
+    pub hashes: Vec<u64>,
 }
 
 pub fn real_cap(v: &Vector) -> usize {
@@ -136,7 +138,7 @@ const SUFFIXES: [&[u8]; 8] = [b"\n", b"a", b"\r\n\r\n", b" ", b":", b"\0", b"\r"
 impl Ctx {
     pub fn new(modes: u32, big: bool) -> Ctx {
         let sz = if big { 2 << 20 } else { 64 << 10 };
-        Ctx { arena: Arena::new(sz), arena2: Arena::new(sz), modes, stats: Stats::default(), violations: Vec::new(), max_violations: 200 }
+        Ctx { arena: Arena::new(sz), arena2: Arena::new(sz), modes, stats: Stats::default(), violations: Vec::new(), max_violations: 200, hashes: Vec::new() }
     }
 
     fn report(&mut self, tags: Tags, entry: u8, context: &str, line: &str) {
@@ -162,6 +164,12 @@ impl Ctx {
         st.vectors += 1;
         if !v.buf.is_empty() {
             st.nontrivial += 1;
+            let mut h: u64 = 0xcbf29ce484222325;
+            for b in [v.kind, v.cfg].iter().chain((v.cap as u32).to_le_bytes().iter()).chain(v.buf.iter()) {
+                h ^= *b as u64;
+                h = h.wrapping_mul(0x100000001b3);
+            }
+            self.hashes.push(h);
         }
         st.max_len = st.max_len.max(v.buf.len());
         let kname = ["req", "resp", "hdrs", "chunk"][v.kind as usize];
